@@ -8,6 +8,7 @@ import (
 	"strings"
 
 	"github.com/enbility/spine-go/internal/verifh/engine"
+	"github.com/enbility/spine-go/internal/verifh/refl"
 	"github.com/enbility/spine-go/internal/verifh/world"
 	"github.com/enbility/spine-go/internal/verifrt/vtime"
 	"github.com/enbility/spine-go/model"
@@ -306,6 +307,103 @@ func c02Type(sp *listSpec, ids []int, maxDepth int, r *engine.IResult) {
 	r.States += int64(len(seen))
 }
 
+
+// c02Unmentioned: "a partial update keeps the items and fields it does not mention", literally: an item the update does
+// not address is afterwards what it was before field by field, in whatever textual form the application stored it (a
+// relative end time stays relative, a time stays in the form it was given). The existing lists are stored through the
+// API as built (no encoding round trip) and every field of the unaddressed items is populated.
+func c02Unmentioned(sp *listSpec, r *engine.IResult) {
+	feats := featuresFor(sp)
+	if feats == nil || sp.keyKind != "uint" {
+		return
+	}
+	ids := []int{1, 2, 3}
+	if len(sp.keys) > 1 {
+		ids = []int{2, 3, 4}
+	}
+	full := func(id, seed int) reflect.Value {
+		it := reflect.New(sp.item).Elem()
+		it.Set(refl.Fill(sp.item, 2, seed))
+		if sp.wcheck >= 0 {
+			it.Field(sp.wcheck).Set(reflect.Zero(sp.item.Field(sp.wcheck).Type))
+		}
+		sp.setKey(it, id)
+		return it
+	}
+	existing := func() any {
+		l := reflect.New(sp.typ)
+		sl := reflect.MakeSlice(sp.typ.Field(sp.listField).Type, 0, 3)
+		sl = reflect.Append(sl, sp.build(itemSpec{id: ids[0], pay: "11"}), full(ids[1], 2), full(ids[2], 3))
+		l.Elem().Field(sp.listField).Set(sl)
+		return l.Interface()
+	}
+	keyStr := func(it reflect.Value) string {
+		var k []string
+		for _, i := range sp.keys {
+			k = append(k, world.JSON(it.Field(i).Interface()))
+		}
+		return strings.Join(k, ",")
+	}
+	updates := []updCase{
+		{[]itemSpec{{id: ids[0], pay: "2-"}}, filterSpec{partial: true}},
+		{[]itemSpec{{id: ids[0], pay: "-2"}}, filterSpec{partial: true}},
+		{[]itemSpec{{id: 0, pay: "2-"}}, filterSpec{partial: true, partialSel: ids[0]}},
+		{nil, filterSpec{del: true, delSel: ids[0]}},
+		{nil, filterSpec{del: true, delSel: ids[0], delElements: true}},
+		{[]itemSpec{{id: ids[0], pay: "22"}}, filterSpec{del: true, delSel: ids[0], partial: true}},
+	}
+	for _, u := range updates {
+		fp, fd, ok := sp.filters(u.fs)
+		if !ok {
+			continue
+		}
+		for _, path := range []string{"local", "remote"} {
+			r.Evals++
+			r.Nontrivial++
+			ex := existing()
+			ref := refl.Clone(ex)
+			var stored any
+			if p := guard(func() {
+				if path == "local" {
+					feats.local.UpdateData(sp.fn, ex, nil, nil)
+					feats.local.UpdateData(sp.fn, sp.list(u.items), fp, fd)
+					stored = feats.local.DataCopy(sp.fn)
+				} else {
+					feats.remote.UpdateData(true, sp.fn, ex, nil, nil)
+					feats.remote.UpdateData(true, sp.fn, sp.list(u.items), fp, fd)
+					stored = feats.remote.DataCopy(sp.fn)
+				}
+			}); p != nil || stored == nil || reflect.ValueOf(stored).IsNil() {
+				continue // panics and rejected updates are judged by the closure search
+			}
+			was := reflect.ValueOf(ref).Elem().Field(sp.listField)
+			now := reflect.ValueOf(stored).Elem().Field(sp.listField)
+			for i := 1; i < was.Len(); i++ { // the two items the update does not address
+				found := false
+				for j := 0; j < now.Len(); j++ {
+					if keyStr(now.Index(j)) != keyStr(was.Index(i)) {
+						continue
+					}
+					found = true
+					if !reflect.DeepEqual(now.Index(j).Interface(), was.Index(i).Interface()) {
+						r.NFails++
+						key := fmt.Sprintf("an item the update does not address is not what it was field by field (%s) | type=%s shape=%s", path, sp.name, u.fs.String())
+						dup := false
+						for _, f := range r.Fails {
+							dup = dup || f.Key == key
+						}
+						if !dup {
+							r.Fails = append(r.Fails, engine.IFail{Key: key, Input: sp.name + " " + u.String(),
+								Msg: fmt.Sprintf("update=%s\n was=%.300v\n now=%.300v", u, refl.Plain(was.Index(i).Interface()), refl.Plain(now.Index(j).Interface()))})
+						}
+					}
+				}
+				_ = found // (a missing item is judged by the closure search)
+			}
+		}
+	}
+}
+
 func c02Families(thorough bool) []*engine.IFamily {
 	specs := listSpecs()
 	ids := []int{1, 2}
@@ -326,6 +424,15 @@ func c02Families(thorough bool) []*engine.IFamily {
 			vtime.StaticNow = &now // relative end times are canonicalised through JSON: freeze the clock
 			defer func() { vtime.StaticNow = nil }()
 			c02Type(specs[chunk], ids, depth, &r)
+			return r
+		}}, {Name: "unmentioned-items-field-by-field", Chunks: len(specs),
+		Rule: "every Updater type with numeric identifiers reachable through a feature x {merge by identifier, identifier-less partial with selector, delete by selector, delete of elements by selector, delete combined with partial}, all addressing item 1 of a three-item list that was stored through the API as built (every field of items 2 and 3 populated, relative and absolute end times) x {FeatureLocal.UpdateData, FeatureRemote.UpdateData}: items 2 and 3 of DataCopy are deep-equal (reflect.DeepEqual against a reflective clone taken before) to what was stored; non-trivial: all",
+		Run: func(chunk int) engine.IResult {
+			var r engine.IResult
+			now := staticNow
+			vtime.StaticNow = &now
+			defer func() { vtime.StaticNow = nil }()
+			c02Unmentioned(specs[chunk], &r)
 			return r
 		}}}
 }
